@@ -77,7 +77,10 @@ func findTextwireFiles() (map[string]string, error) {
 }
 
 func nameFromPath(path string) string {
-	name := strings.Replace(path, userConfig.TemplateDir+"/", "", 1)
-	name = strings.Replace(name, userConfig.TemplateExt, "", 1)
-	return name
+	name, err := filepath.Rel(userConfig.TemplateDir, path)
+	if err != nil {
+		name = path
+	}
+
+	return strings.TrimSuffix(filepath.ToSlash(name), userConfig.TemplateExt)
 }
